@@ -271,10 +271,12 @@ def mergeOuts : List (Option Out) → List (Option Out) → List (Option Out)
 inductive Ev where
   /-- commit.do_add: NotifyTxAdd(rec); HashMap[key] = rec -/
   | add (r : Rec)
-  /-- UnspentDB.del(key, mask) from commit.do_del -/
-  | del (key : Key) (mask : List Bool)
-  /-- UndoBlockTxs, first loop, for a transaction of the undone block with `n` outputs -/
-  | undoDel (key : Key) (n : Nat)
+  /-- UnspentDB.del(txid, mask) from commit.do_del — the FULL 32-byte txid: the record stored under its first 8 bytes is touched
+      only if it carries exactly this txid (`bytes.Equal((*v)[:32], txid)`, fix 9e63ae4d) -/
+  | del (txid : Bytes) (mask : List Bool)
+  /-- UndoBlockTxs, first loop, for a transaction (txid) of the undone block with `n` outputs: with the wallet callbacks installed
+      it goes through UnspentDB.del (full txid compared); without them it deletes by the 8-byte key directly -/
+  | undoDel (txid : Bytes) (n : Nat)
   /-- UndoBlockTxs, second loop, for one undo record -/
   | undoAdd (r : Rec)
   /-- wallet.LoadBalancesFromUtxo with CFG.AllBalances.{MinValue,UseMapCnt} -/
@@ -293,6 +295,13 @@ def dbDel (H : Bytes → Nat) (s : State) (key : Key) (mask : List Bool) : State
     let utxo := if anyOut outs then aset key { r with outs := outs } s.utxo else adel key s.utxo
     { s with bal := bal, utxo := utxo }
 
+/-- `UnspentDB.del(txid, mask)`: look the record up under the 8-byte key; a record of ANOTHER transaction with the same key prefix
+    is left alone (and the wallet is not notified) -/
+def dbDelTx (H : Bytes → Nat) (s : State) (txid : Bytes) (mask : List Bool) : State :=
+  match aget (txid.take 8) s.utxo with
+  | none => s
+  | some r => if r.txid = txid then dbDel H s (txid.take 8) mask else s
+
 /-- `LoadBalancesFromUtxo`'s loop: `TxNotifyAdd` for every stored record -/
 def loadAll (cfg : Cfg) (H : Bytes → Nat) : Utxo → BalMap → BalMap
   | [], bal => bal
@@ -302,10 +311,10 @@ def step (H : Bytes → Nat) (s : State) : Ev → State
   | .add r =>
     let bal := if s.on then newUTXO s.cfg H s.bal r else s.bal
     { s with bal := bal, utxo := aset r.key r s.utxo }
-  | .del key mask => dbDel H s key mask
-  | .undoDel key n =>
-    if s.on then dbDel H s key (List.replicate n true)
-    else { s with utxo := adel key s.utxo }
+  | .del txid mask => dbDelTx H s txid mask
+  | .undoDel txid n =>
+    if s.on then dbDelTx H s txid (List.replicate n true)
+    else { s with utxo := adel (txid.take 8) s.utxo }
   | .undoAdd r =>
     let bal := if s.on then newUTXO s.cfg H s.bal r else s.bal
     let merged := match aget r.key s.utxo with
